@@ -180,7 +180,7 @@ def missing_targets(sn, targets, target_dirs) -> tuple[int, int]:
         d = str(d)
         ok = False
         for lab, i in file_by_label.items():
-            if lab.startswith(d) and sn.files[i][0] != FileState.VOLATILE.value and any(
+            if (d == "./" or lab.startswith(d)) and sn.files[i][0] != FileState.VOLATILE.value and any(
                     True for _ in sn.sources(i)):
                 ok = True
                 break
